@@ -880,9 +880,9 @@ class FuncEmitter:
 
     def intrinsic(self, I, name, d, args):
         E = self.E; w = self.w
-        A = [self.ex(t, v) for t, v in args]
         if name.startswith(SKIP_INTRINSICS):
             return
+        A = [self.ex(t, v) for t, v in args]
         base = name.split('.')
         if name.startswith(('llvm.memcpy.', 'llvm.memmove.')):
             w('ir_memmove(%s, %s, (uint64_t)%s);' % (A[0], A[1], A[2]))
